@@ -359,7 +359,8 @@ WN_EVERY = 5  # every 5th bucket holds a weight-normalised family (bnaf / tri_sp
 NAMED_SWEEP_EVERY = 8  # C18 only: among the non-weight-normalised buckets every 8th is a named-family sweep bucket
 NAMED_SWEEP = ["Logistic", "StudentT", "Gumbel", "Cauchy", "Laplace", "Normal", "Exponential", "LogNormal", "Uniform", "MultivariateNormal",
                "VmapMixture", "MixShiftedLogNormal"]
-SWEEP_SYMBOLS = ["big", "-big", "huge", "-huge", "0", "tiny", "out_lo", "out_hi", "1", "-1", "big", "-huge"]
+# "lo" / "hi" resolve to the family's own support boundaries where it has any (Uniform minval / maxval, 0 for Exponential and LogNormal)
+SWEEP_SYMBOLS = ["big", "-big", "huge", "-huge", "0", "tiny", "out_lo", "out_hi", "1", "-1", "lo", "hi"]
 
 
 def _route(prop, idx):
